@@ -17,6 +17,9 @@ func propC19(c *Ctx, r *Report) {
 		"acceptance equivalence under the edits; the body of the comment skipper (nesting depth) and of the number / identifier scanners; '>>' / '>=' splitting in the parser; redundant parentheses in the parser, trailing commas in lists parsed without a loop (array<T, N,>); renaming invariance (declaration ordering by dependency, name-keyed maps)")
 	c.runPositionSinks(r, "pos.sink", "wgsl/internal/lower")
 	r.floor("positions.reads", 5)
+	r.Clauses = append(r.Clauses, userShadowClause+" - renaming a function to a name shaped like a built-in (vecs, step, min) must not change what a call means")
+	c.runUserShadow(r, "call.usershadow", "wgsl/internal/lower")
+	r.floor("call.usershadow", 1)
 	r.Clauses = append(r.Clauses, "syntax-tree walkers (E3): every function reachable from the parser / lowerer entry points that walks the parser's tree (a type switch over Expr, Stmt, Type or Decl nodes using every child in >= 3/4 of its arms) uses every child node of every variant it has an arm for and, when it has no default arm, has an arm for every variant that has children (dependency ordering that misses a reference makes acceptance depend on declaration order)")
 	c.runFrontendASTWalkers(r, "frontend")
 	r.Clauses = append(r.Clauses, "token characters (E20): in the lexer's punctuation scanner the characters consumed on the path to every addToken(K) - case label, successful match() tests, advance() calls - spell exactly the WGSL token K, and the block-comment skipper is entered with exactly \"/*\" consumed (so a comment or operator never shifts the position from which the following text is lexed)")
